@@ -585,6 +585,8 @@ C09_Accept(c, trk, call, o) ==
   IF call.op \in {"ref_from_slice", "ref_from_bytes", "bytes_ref"} /\ call.h \in {"mb", "htag"}
   THEN Controlled(o) /\ (o.k = "ok" => (Has(o.v, "sv") => o.v.at >= 0 /\ o.v.at + o.v.sv <= Len(c.mem))
                                        /\ (Has(o.v, "len") => o.v.at >= 0 /\ o.v.at + o.v.len <= Len(c.mem)))
+       \* ... and inside the length the structure itself declares (rounded up to its padding), not merely inside the slice
+       /\ (call.op # "bytes_ref" /\ o.k = "ok" => o.v.sv <= RoundUp8(Max(Declared(c, HeaderByName(call.h)), HeaderByName(call.h).hsize)))
   \* a declared length below 16 is refused as too short whatever lies behind it (nothing behind it is looked at)
   ELSE IF call.op = "hload" /\ ~Has(c, "memx") /\ ~IsNull(call) /\ Len(c.mem) >= 12 /\ U32At(c.mem, 8) < 16
   THEN Controlled(o) /\ AcceptHLoad(FALSE, c.mem, o)
